@@ -26,6 +26,7 @@ SPECS = {
     "quotes": 'grammar q;\nQUOT = "\'";\nBSL = "\\\\";\nDQ = "\\"";\nstart = QUOT BSL DQ "`" "if";\n',
     "controls": 'grammar c;\nWS = $WS;\nSTR = $STRING;\nCOMMENT = $COMMENT;\nstart = STR;\n',
     "nonascii": 'grammar n;\nGREEK = /\\p{Greek}+/;\nEURO = /\\x20AC/;\nstart = GREEK EURO;\n',
+    "astral": 'grammar astral;\nARROW = /\\x2192/;\nSMILE = /\\x0001F600+/;\nHIGH = /[\\x0001F300-\\x0001F5FF]/;\nNONCH = /\\x0000FFFE/;\nstart = ARROW SMILE HIGH NONCH;\n',
     "keywords": 'grammar k;\nID = /[a-z]+/;\nstart = "if" ID "then" ID "else" ID | "iff" | "i";\n',
     "numbers": 'grammar m;\nNUM = $NUMBER;\nstart = NUM {"," NUM};\n',
     "many": 'grammar many;\nA1 = /a+/;\nB1 = /b+c?/;\nC1 = /[x-z]{2,3}/;\nstart = A1 B1 C1 "(" ")" "[" "]" "{" "}" ";" "=" "|" "<" ">" "~" "^" "%" "#" "@" "!" "?" ":" "." "," "-" "*" "/" "&";\n',
@@ -37,7 +38,7 @@ SPECS = {
 
 
 def gen_random_spec(rng, i):
-    pats = ["/[a-z]+/", "/[0-9]+/", "/[A-Z][a-z]*/", "/\\x27[a-z]\\x27/", "/\\\\[a-z]/", "/\\x5C\\x5C/", "/[!-\\/]/", "/[\\x80-\\xFF]/", "/\\x0100+/", "$ID", "$NUMBER",
+    pats = ["/[a-z]+/", "/[0-9]+/", "/[A-Z][a-z]*/", "/\\x27[a-z]\\x27/", "/\\\\[a-z]/", "/\\x5C\\x5C/", "/[!-\\/]/", "/[\\x80-\\xFF]/", "/\\x0100+/", "/\\x0001F600/", "/[\\x0000FFF0-\\x00010010]/", "$ID", "$NUMBER",
             "$STRING", "$WS", "/\\x22[^\\x22]*\\x22/", "/[\\x09\\x0A\\x0D]+/", "/\\x7F/", "/\\x60+/"]
     lits = ['"+"', '"\'"', '"\\\\"', '"\\""', '"if"', '"else"', '"=="', '"`"', '"$"', '"%"', '"~"']
     n = rng.randint(1, 5)
